@@ -2,30 +2,47 @@ import CantoVerif.Gen.EpochsConds
 import CantoVerif.Model.Epochs
 /-!
 # Bridge: the decision expressions of the epochs `BeginBlocker` and the two mutators of `EpochInfo`,
-regenerated from `/repo` by `factx` (conds.go), ARE the model's (`rfl`).
+regenerated from `/repo` by `factx` (conds.go), ARE the model's.
 
 `shouldInitialEpochStart`, `shouldEpochEnd` (with `epochEndTime` inlined) of `x/epochs/keeper/abci.go`; the
 right-hand sides of the assignments of `StartInitialEpoch` and `EndEpoch` in `x/epochs/types/epoch_info.go`.
 `time.Time` / `time.Duration` are integers of nanoseconds on both sides (`a.After(b)` is `b < a`).
 A change of a comparison (`After` → `!Before`), of a conjunct, of the end-time expression or of a mutator's
-right-hand side changes the generated term and breaks the corresponding `rfl`.
+right-hand side changes the generated term and breaks the corresponding theorem.  The proofs try `rfl` first and fall back to a
+decision by cases (the started flag, block time before the start time, block time past the end time; `omega` for what is left),
+so that an *equivalent* reformulation of a condition (conjuncts reordered, a sub-condition hoisted into a local, `x.After(y)`
+written `y.Before(x)`) still checks, while any reformulation that differs on some input does not.
 -/
 namespace CV.Bridge.Epochs
 open CV CV.Epochs
 
 theorem shouldStart_bridge (e : EpochInfo) (now : Int) :
-    Gen.EpochsConds.shouldInitialEpochStart e.started e.start e.curStart e.dur now = shouldStart e now := rfl
+    Gen.EpochsConds.shouldInitialEpochStart e.started e.start e.curStart e.dur now = shouldStart e now := by
+  first
+  | rfl
+  | (simp only [Gen.EpochsConds.shouldInitialEpochStart, shouldStart]
+     cases e.started <;> by_cases h1 : now < e.start <;> by_cases h2 : e.curStart + e.dur < now <;> simp [h1, h2] <;> omega)
 
 theorem shouldEnd_bridge (e : EpochInfo) (now : Int) :
-    Gen.EpochsConds.shouldEpochEnd e.started e.start e.curStart e.dur now = shouldEnd e now := rfl
+    Gen.EpochsConds.shouldEpochEnd e.started e.start e.curStart e.dur now = shouldEnd e now := by
+  first
+  | rfl
+  | (simp only [Gen.EpochsConds.shouldEpochEnd, shouldEnd, shouldStart]
+     cases e.started <;> by_cases h1 : now < e.start <;> by_cases h2 : e.curStart + e.dur < now <;> simp [h1, h2] <;> omega)
 
 theorem startInitial_bridge (e : EpochInfo) (h : Int) :
     (startInitial e h).started = Gen.EpochsConds.startStarted e.start e.curStart e.dur e.cur ∧
     (startInitial e h).cur = Gen.EpochsConds.startCur e.start e.curStart e.dur e.cur ∧
-    (startInitial e h).curStart = Gen.EpochsConds.startCurStart e.start e.curStart e.dur e.cur := ⟨rfl, rfl, rfl⟩
+    (startInitial e h).curStart = Gen.EpochsConds.startCurStart e.start e.curStart e.dur e.cur := by
+  first
+  | exact ⟨rfl, rfl, rfl⟩
+  | (simp [startInitial, Gen.EpochsConds.startStarted, Gen.EpochsConds.startCur, Gen.EpochsConds.startCurStart] <;> omega)
 
 theorem endEpoch_bridge (e : EpochInfo) (h : Int) :
     (endEpoch e h).cur = Gen.EpochsConds.endCur e.start e.curStart e.dur e.cur ∧
-    (endEpoch e h).curStart = Gen.EpochsConds.endCurStart e.start e.curStart e.dur e.cur := ⟨rfl, rfl⟩
+    (endEpoch e h).curStart = Gen.EpochsConds.endCurStart e.start e.curStart e.dur e.cur := by
+  first
+  | exact ⟨rfl, rfl⟩
+  | (simp [endEpoch, Gen.EpochsConds.endCur, Gen.EpochsConds.endCurStart] <;> omega)
 
 end CV.Bridge.Epochs
